@@ -2,6 +2,7 @@ import AmaranthVerif.Model.Sexp
 import AmaranthVerif.Model.Rtlil.Parse
 import AmaranthVerif.Model.Rtlil.Print
 import AmaranthVerif.Model.Rtlil.WF
+import AmaranthVerif.Model.Rtlil.SrcAttr
 
 /-! # Driver `amodel_c07` (unverified I/O glue around Model/Rtlil/{Parse,WF})
 
@@ -15,6 +16,9 @@ Response (TAB separated `key=value`):
 * `parse=ok  roundtrip=<ok|FAIL>  wf=ok  modules=<n> wires=<n> cells=<n> procs=<n> instances=<ok|type:count>`
 * `parse=ok  roundtrip=…  wf=fail  module=<name>  clause=<clause>  item=<what inside the module>`
 `roundtrip`: `parse (print d) = d` for the parsed document (the printer of `Model/Rtlil/Print`).
+The expected attributes are given in full, one literally named `\src` included: `checkAll` (`Model/Rtlil/SrcAttr`)
+runs `check` against the expected instances without their `\src` attributes and then the clause
+`given-src-attribute-kept`.
 -/
 
 open Amaranth Amaranth.Rtlil
@@ -94,6 +98,22 @@ def diag (d : Doc) (exp : List Foreign) (m : Module) : Clause → String
       | none => s!"wire {w.name}"
     | none => "?"
 
+def showConst : Const → String
+  | .bits bs => s!"{bs.length}'" ++ String.ofList (bs.map showBit)
+  | .int n => s!"{n}"
+  | .str t => "\"" ++ t ++ "\""
+
+/-- which cell fails the clause `given-src-attribute-kept` (diagnostics only) -/
+def diagSrc (exp : List Foreign) (m : Module) : String :=
+  match m.cells.find? (fun c => !cellSrcKeptB exp c) with
+  | some c =>
+    let given := match exp.find? (fun f => f.type == c.type) with
+      | some f => " ".intercalate (f.srcAttrs.map (fun (a : Attr) => showConst a.value))
+      | none => "?"
+    s!"cell {c.type} {c.name}: attribute \\src is " ++ " ".intercalate (c.srcAttrs.map (fun (a : Attr) => showConst a.value)) ++
+      s!", given {given}"
+  | none => "?"
+
 /-! ### expected foreign instances -/
 
 def parseDirS : Sexp → Option Dir
@@ -145,7 +165,7 @@ def handleWf (text : String) (exp : List Foreign) : String :=
     let rt := match parse (render (printDoc d)) with
       | .ok d' => if d' == d then "ok" else "FAIL"
       | .error _ => "FAIL"
-    match check d exp with
+    match checkAll d exp with
     | .ok () =>
       let wires := (d.map (·.wires.length)).foldl (· + ·) 0
       let cells := (d.map (·.cells.length)).foldl (· + ·) 0
@@ -159,11 +179,14 @@ def handleWf (text : String) (exp : List Foreign) : String :=
         | f :: _ => s!"{clean f.type}:{occ f}"
       tab ["parse=ok", s!"roundtrip={rt}", "wf=ok", s!"modules={d.length}", s!"wires={wires}", s!"cells={cells}", s!"procs={procs}",
            s!"instances={inst}"]
-    | .error (mn, cl) =>
+    | .error (mn, cln) =>
       let item := match d.find? (·.name == mn) with
-        | some m => diag d exp m cl
+        | some m =>
+          match check d (exp.map Foreign.design) with
+          | .error (_, cl) => diag d (exp.map Foreign.design) m cl
+          | .ok () => diagSrc exp m
         | none => "module names"
-      tab ["parse=ok", s!"roundtrip={rt}", "wf=fail", s!"module={mn}", s!"clause={cl.name}", s!"item={clean item}"]
+      tab ["parse=ok", s!"roundtrip={rt}", "wf=fail", s!"module={mn}", s!"clause={cln}", s!"item={clean item}"]
 
 def handle (line : String) : String :=
   match Sexp.parse line with
